@@ -15,3 +15,5 @@ import BS.Properties.C10m
 #print axioms BS.Merge.merge_machine_spec
 #print axioms BS.Merge.merge_machine_leftmost
 #print axioms BS.Merge.leftmost_legal
+#print axioms BS.Merge.combine_then_reduce_machine
+#print axioms BS.Merge.sort_runs_then_merge_machine
